@@ -1,5 +1,5 @@
 (* C16 - Dirty marks are confined to what was written (tracking is precise).  Statements only. *)
-From VM Require Import Prelude.MachInt Prelude.Outcome Impl.Bitmap Impl.Dirty Spec.C05 Suite.C05 Proofs.C05 Proofs.LinkDirtyBitmap.
+From VM Require Import Prelude.MachInt Prelude.Outcome Impl.Bitmap Impl.Dirty Spec.C05 Suite.C05 Proofs.C05 Proofs.C05ModelOk Proofs.LinkDirtyBitmap.
 
 (* a page reported dirty after an operation was dirty before it, or contains a byte of a range the
    operation marked; and (next theorem) the marked range IS the written range for every operation
@@ -27,6 +27,13 @@ Theorem C16_page_in_overlap : forall ps off len p, 0 < ps -> 0 < len -> off + le
   (page_in ps off len p = true <-> exists i, off <= i < off + len /\ i / ps = p).
 Proof. exact page_in_overlap. Qed.
 
+(* the implementation model satisfies the executable checker ok_C16 (the one that judges the REAL
+   observations) on every history of every well-formed state; [view] is what the harness observes:
+   the page bits of each region plus a two-page margin *)
+Theorem C16_model_ok : forall hm ss rs, wf rs ->
+  ok_hist ok_C16_step (map geom_of rs) (view rs) (map kind_of ss) (run_hist hm rs ss) = true.
+Proof. exact C16_model_ok_lemma. Qed.
+
 Example C16_nonvacuous :
   let r := {| r_start := 4096; r_size := 8192; r_ps := 4096; r_tracked := true; r_dirty := [false; false] |} in
   (* an 8-byte write ending exactly at the page end marks page 0 only; a read marks nothing *)
@@ -39,6 +46,7 @@ Print Assumptions C16_precise.
 Print Assumptions C16_marked_is_written.
 Print Assumptions C16_mark_spec.
 Print Assumptions C16_page_in_overlap.
+Print Assumptions C16_model_ok.
 
 (* ---------------------------------------------------------------------------------------------
    LINK to C09 (Proofs/LinkDirtyBitmap.v).  [mark] above is no longer an assumed interface: the
